@@ -14,6 +14,7 @@ LEVEL_NOTE = "necessary conditions only"
 def run(ctx):
     from . import guardvocab
     guardvocab.G0(ctx, effects={'leak-scan', 'ref-dec', 'ref-inc'})
+    guardvocab.G1(ctx, effects={'leak-scan', 'ref-dec', 'ref-inc'})
     leaks.K1(ctx)
     leaks.K2(ctx)
     leaks.K2b(ctx)
